@@ -27,7 +27,7 @@ CONFIGS = [("synchronous", None), ("threads", 1), ("threads", 2), ("threads", 4)
 
 
 # ------------------------------------------------------------------ generator
-def gen_case(rng, mode=None, stochastic=None, custom_kind=None):
+def gen_case(rng, mode=None, stochastic=None, custom_kind=None, adc=None):
     case = c05.gen_case(rng, mode=mode, with_dask=True,
                         flavour=rng.choice(["plain", "fine", "vectors", "two_models_same_arg", "same_model_two_groups",
                                             "field_vs_arg"]), max_runs=12)
@@ -41,6 +41,15 @@ def gen_case(rng, mode=None, stochastic=None, custom_kind=None):
                     p["width"], p["decl"], p["enabled"] = 1, ["_"], True
         case["table"] = c05.gen_table(rng, case["params"])
         case["col_start"] = rng.choice([1, 2]) if custom_kind in ("shift", "both") else 0
+    if adc is None:
+        adc = case["mode"] != "custom" and rng.random() < 0.25
+    if adc and case["mode"] != "custom":
+        # a swept setting that changes a bucket's dtype: the ADC resolution decides the dtype of the image
+        bits = rng.sample([8, 12, 16, 24, 32], rng.choice([2, 3]))
+        case["params"].append({"key": "detector.characteristics.adc_bit_resolution", "decl": bits, "expect": bits,
+                               "enabled": True, "multi": False})
+        case["fields"] = sorted(set(case["fields"]) | {"characteristics.adc_bit_resolution"})
+        case["adc"] = rng.choice([200, 60000, 3000000])
     stochastic = rng.choice([None, None, "pipeline_seed", "model_seed"]) if stochastic is None else stochastic
     case["stochastic"] = stochastic or None
     case["seed"] = rng.randrange(1, 10000)
@@ -49,13 +58,16 @@ def gen_case(rng, mode=None, stochastic=None, custom_kind=None):
 
 
 def extra_models(case):
-    """the stochastic probe (after every stamp probe, before the field recorder), slot = nslots(case)"""
+    """the stochastic probe (after every stamp probe, before the field recorder), slot = nslots(case); the image
+    writer whose dtype follows the ADC resolution"""
+    adc = {"readout_electronics": [{"name": "adc", "func": "obsprobes.adc_image", "arguments": {"value": case["adc"]}}]} \
+        if case.get("adc") else None
     if not case.get("stochastic"):
-        return None, 0
+        return adc, 0
     args = {"slot": c05.nslots(case), "n": 3, "delay_ms": 1.0 if case["delay_ms"] else 0.0}
     if case["stochastic"] == "model_seed":
         args["seed"] = case["seed"]
-    return {"readout_electronics": [{"name": "rnd", "func": "obsprobes.draw", "arguments": args}]}, 1
+    return {"readout_electronics": [{"name": "rnd", "func": "obsprobes.draw", "arguments": args}] + (adc or {}).get("readout_electronics", [])}, 1
 
 
 # ------------------------------------------------------------------ implementation side
@@ -66,7 +78,7 @@ def run_path(case, parallel, scheduler="synchronous", workers=None, outputs=Fals
         res = c05.run_impl(case, scheduler=scheduler, num_workers=workers, with_dask=parallel,
                            delay_ms=case["delay_ms"] if parallel else 0.0, outputs_dir=out_dir,
                            pipeline_seed=case["seed"] if case.get("stochastic") == "pipeline_seed" else None,
-                           extra=extra, extra_slots=extra_slots)
+                           extra=extra, extra_slots=extra_slots, with_image=bool(case.get("adc")))
         if outputs and "error" not in res:
             res["files"] = read_files(res.get("output_dir"), c05.nslots(case) + extra_slots)
         return res
@@ -100,7 +112,7 @@ def join_key(case, entry):
 def by_label(case, res):
     out = {}
     for e in res["entries"]:
-        out.setdefault(join_key(case, e), []).append(e["data"])
+        out.setdefault(join_key(case, e), []).append(e["data"] + ([["image", e["image"]]] if "image" in e else []))
     return out
 
 
@@ -166,7 +178,13 @@ def predicate(case, ref, par, cfg):
                 f"{sorted(set(b) - set(a))[:2]} vs {sorted(set(a) - set(b))[:2]}")
     for k in a:
         if a[k] != b[k]:
-            stoch = ":stochastic" if case.get("stochastic") and a[k][0][:-1] == b[k][0][:-1] else ""
+            stoch = ":stochastic" if case.get("stochastic") and not case.get("adc") and a[k][0][:-1] == b[k][0][:-1] else ""
+            if case.get("adc") and [x[:-1] for x in a[k]] == [x[:-1] for x in b[k]]:
+                stoch = ":image-dtype-fixed-by-first-combination"
+            if stoch.startswith(":image"):
+                return ("dask-output-dtype-fixed-by-first-combination",
+                        f"combination {k}: a swept setting changes the image dtype; parallel bucket values {b[k]} differ from "
+                        f"sequential {a[k]} (cast to the dtype of the first combination)")
             return ((tag if cls else f"{tag}:values") + stoch,
                     f"combination {k}: parallel bucket values {b[k]} differ from sequential {a[k]}")
     if "files" in par:
@@ -178,6 +196,61 @@ def predicate(case, ref, par, cfg):
         if sorted(common.canon(v) for v in files.values()) != want:
             return (f"{tag}:file-contents", "the files do not hold exactly one copy of every combination's data")
     return None
+
+
+# ------------------------------------------------------------------ lazy results set up one after the other
+def check_lazy_interleaving(ck, rng):
+    """two lazy dask results from the SAME Observation (same outputs object): the first is computed only after the
+    second has been set up.  The files of each observation must be one-to-one with its own combinations, in its own
+    folder."""
+    import dask
+    import numpy as np
+    import obsprobes
+    import pyx
+    import pyxel
+    from pyxel.observation import Observation, ParameterValues
+    from pyxel.outputs import ObservationOutputs
+
+    vals = rng.sample(range(1, 50), rng.choice([2, 3, 4]))
+    case = {"lazy_values": vals, "order": rng.choice(["first-then-second", "second-then-first"])}
+    tmp = tempfile.mkdtemp(prefix="verif-c07-lazy-")
+    cwd = os.getcwd()
+    try:
+        os.chdir(tmp)
+        out = ObservationOutputs(output_folder=tmp, save_data_to_file=[{"detector.pixel.array": ["npy"]}])
+        obs = Observation(parameters=[ParameterValues(key="pipeline.photon_collection.p.arguments.a", values=list(vals))],
+                          mode="product", with_dask=True, outputs=out)
+
+        def objs(tag):
+            return pyx.make_detector("CCD", 3, 4), pyx.make_pipeline(
+                {"photon_collection": [{"name": "p", "func": "obsprobes.stamp", "arguments": {"slot": 0, "a": 0, "tag": tag}}]})
+
+        runs = []
+        for tag in ("one", "two"):
+            d, p = objs(tag)
+            dt = pyxel.run_mode(mode=obs, detector=d, pipeline=p, with_inherited_coords=True)
+            runs.append((tag, dt, str(out.current_output_folder)))
+            # a new folder name needs a new second or the `_1` retry: both are fine
+        order = runs if case["order"] == "first-then-second" else runs[::-1]
+        with dask.config.set(scheduler="threads", num_workers=2):
+            for tag, dt, folder in order:
+                c05.find_bucket(dt)["pixel"].compute()
+        ck.case({"lazy": case}, nontrivial=True, stream="lazy")
+        ck.count("lazy:" + case["order"])
+        for tag, dt, folder in runs:
+            files = read_files(folder, 1)
+            want = sorted(common.canon([c05.num(obsprobes.fingerprint({"a": v, "tag": tag}))]) for v in vals)
+            got = sorted(common.canon(v) for v in files.values())
+            if got != want:
+                ck.violation("C07:lazy-runs-share-one-outputs-folder",
+                             f"observation '{tag}' (folder {os.path.basename(folder)}): its folder holds {len(files)} file(s) "
+                             f"{sorted(files)} which are not one-to-one with its {len(vals)} combinations (computing a lazy result "
+                             "after another run of the same Observation was set up writes into the other run's folder)",
+                             {"lazy": case})
+                return
+    finally:
+        os.chdir(cwd)
+        shutil.rmtree(tmp, ignore_errors=True)
 
 
 # ------------------------------------------------------------------ calibration clause
@@ -271,7 +344,9 @@ def body(ck: common.Check):
     cases = []
     for mode in ("product", "sequential", "custom"):
         for st in (None, "pipeline_seed", "model_seed"):
-            cases.append(("directed", gen_case(rng, mode=mode, stochastic=st or False, custom_kind="plain")))
+            cases.append(("directed", gen_case(rng, mode=mode, stochastic=st or False, custom_kind="plain", adc=False)))
+    for mode in ("product", "sequential"):
+        cases.append(("directed", gen_case(rng, mode=mode, stochastic=False, adc=True)))
     for kind in ("w1", "shift", "both"):
         cases.append(("directed", gen_case(rng, mode="custom", stochastic=False, custom_kind=kind)))
     for _ in range(10 if quick else 150):
@@ -337,6 +412,8 @@ def body(ck: common.Check):
     for (case, cfg, sigma, n), ans in zip(second, LeanDriver("C07").batch(reqs)):
         if set(sigma) >= set(range(n)) and ans.get("assembled") != list(range(n)):
             ck.disagreement("assembly", case, list(range(n)), ans.get("assembled"))
+    for _ in range(2 if quick else 12):
+        check_lazy_interleaving(ck, rng)
     # calibration clause
     ncal = 2 if quick else 12
     for i in range(ncal):
@@ -366,7 +443,8 @@ def body(ck: common.Check):
                "column ranges and single-placeholder lists) with data-dependent delays in every probe, optionally a seeded "
                "stochastic probe (pipeline seed / model seed); each run on the sequential path and on the dask path under "
                "synchronous, threads×{1,2,4,16} (rotating in quick, all in thorough) and processes×3 (every 6th/10th case); "
-               "values joined by label, output files matched with the model's tasks; tiny seeded calibrations (sade, 1-3 islands, "
+               "values joined by label (pixel bucket, and the image bucket when a swept ADC resolution changes its dtype), output "
+               "files matched with the model's tasks; two lazy results of one Observation computed after both were set up; tiny seeded calibrations (sade, 1-3 islands, "
                "three topologies) under schedulers × DaskBFE chunk sizes × island creation parallel/sequential; "
                "non-trivial = parallel run with at least two combinations")
     ck.assumptions = [
@@ -394,6 +472,21 @@ def replay(path):
         bad = "error" in b or a != b
         print("REPRODUCED: calibration outcome differs / fails" if bad else "not reproduced (property holds on this input)")
         return 1 if bad else 0
+    if "lazy" in r:
+        import random
+
+        ck = common.Check("C07", "quick")
+
+        class _R(random.Random):
+            def sample(self, pop, k):
+                return list(r["lazy"]["lazy_values"])
+
+            def choice(self, seq):
+                return r["lazy"]["order"] if "first-then-second" in seq else len(r["lazy"]["lazy_values"])
+
+        check_lazy_interleaving(ck, _R(0))
+        print("REPRODUCED: " + ck.violations[0]["what"] if ck.violations else "not reproduced (property holds on this input)")
+        return 1 if ck.violations else 0
     case = r.get("case")
     if case is None:
         print("replay names a broken obligation/correspondence, no concrete input:", rp["what"])
